@@ -36,9 +36,14 @@ static void body(const symx::Case &c, const std::string &line) {
         if (c.count("maxm")) symx::assume(cnt <= atoi(c.at("maxm").c_str()));
         symx::resolve_model();
     }
-    size_t bi = 0;
-    for (int a = 0; a < n; a++) for (int b = a + 1; b < n; b++) {
-        if (symx::decide_expr(bits[bi++])) t.edges.emplace_back(a, b);
+    if (c.count("edges")) {
+        // a given topology (used for disjoint unions of small components on more vertices than the exhaustive part reaches)
+        t = orc::parse_topo(n, c.at("edges"));
+    } else {
+        size_t bi = 0;
+        for (int a = 0; a < n; a++) for (int b = a + 1; b < n; b++) {
+            if (symx::decide_expr(bits[bi++])) t.edges.emplace_back(a, b);
+        }
     }
     int m = t.m();
     int ord = symx::choose(orders, "order");
